@@ -1124,4 +1124,227 @@ Proof.
   - eapply stmt_EIncNF; eauto.
 Qed.
 
+
+(* ---- what the checker guarantees at a program point ---------------------------------------------------------------- *)
+Lemma check_succ : forall p i b a gt x, an_get (ann p) i b = Some a -> nth_error (nth p ps []) i = Some (gt, x) ->
+  req x a = true /\ forall j b' a', In (j, b', a') (succs i b a x) -> exists a'', an_get (ann p) j b' = Some a'' /\ leq a' a'' = true.
+Proof.
+  intros p i b a gt x Ha Hn. pose proof (an_get_bound _ _ _ _ Ha) as Hb.
+  pose proof (check_at_ann p i b Hb) as Hc. unfold check_at in Hc. rewrite Ha, Hn in Hc.
+  apply andb_true_iff in Hc. destruct Hc as [Hr Hf]. split; auto.
+  intros j b' a' Hin. rewrite forallb_forall in Hf. specialize (Hf _ Hin). simpl in Hf.
+  apply andb_true_iff in Hf. destruct Hf as [_ Hf]. destruct (an_get (ann p) j b') as [a''|]; try discriminate. eauto.
+Qed.
+
+Lemma check_end : forall p i b a, an_get (ann p) i b = Some a -> nth_error (nth p ps []) i = None ->
+  a_ok a = true /\ a_locks a = [] /\ no_debt a = true.
+Proof.
+  intros p i b a Ha Hn. pose proof (an_get_bound _ _ _ _ Ha) as Hb.
+  pose proof (check_at_ann p i b Hb) as Hc. unfold check_at in Hc. rewrite Ha, Hn in Hc.
+  apply andb_true_iff in Hc. destruct Hc as [Hr Hf]. destruct (a_locks a); try discriminate. auto.
+Qed.
+
+(* returning to the script (or finishing): the next program point is the entry of a program, annotated with a0 *)
+Lemma thread_ok_entry : forall g t th th', sat g t th a0 -> same_regs th th' ->
+  (pc th' = None \/ exists p, pc th' = Some (p, 0)) -> thread_ok g t th'.
+Proof.
+  intros g t th th' Hs Hsr Hpc. unfold thread_ok, cur_a. destruct Hpc as [Hpc | [p Hpc]]; rewrite Hpc.
+  - exists a0. split; auto. eapply sat_frame; eauto. apply same_study_refl.
+  - destruct (entry_ann p (r_ret th')) as [x [A B]]. exists x. split; auto. eapply sat_leq; eauto. eapply sat_frame; eauto. apply same_study_refl.
+Qed.
+
+Lemma to_script_pc : forall th, pc (to_script th) = None \/ exists p, pc (to_script th) = Some (p, 0).
+Proof. intros. unfold to_script. destruct (next_call _ _) as [[u r]|]; simpl; eauto. Qed.
+
+Lemma GI_frame2 : forall g g' ts t th th', same_gi g g' -> nth_error ts t = Some th -> gh th' = gh th ->
+  (g_reg (gh th) = true -> holds_k th' KReg) -> GI g ts -> GI g' (set_th ts t th').
+Proof.
+  intros g g' ts t th th' [] Ht Hgh Hh [].
+  constructor; unfold St in *; rewrite ?sg_tr0, ?sg_max0, ?sg_full0, ?sg_comp0, ?sg_pend0, ?sg_inf0, ?sg_reg0, ?sg_nst0; auto.
+  - rewrite gi_nst0. f_equal. symmetry. eapply cntb_same; eauto. rewrite Hgh. auto.
+  - intros t0 th0 Hn Hr. destruct (Nat.eq_dec t t0).
+    + subst. erewrite nth_error_set_th_eq in Hn; eauto. inv Hn. apply Hh. congruence.
+    + rewrite nth_error_set_th_neq in Hn; auto. eauto.
+  - intros t0 th0 j Hn Ho. destruct (Nat.eq_dec t t0).
+    + subst. erewrite nth_error_set_th_eq in Hn; eauto. inv Hn. eapply gi_own0; eauto. congruence.
+    + rewrite nth_error_set_th_neq in Hn; auto. eauto.
+  - intros. erewrite fbdebt_same; eauto.
+  - erewrite sumz_same; eauto. rewrite Hgh. auto.
+  - erewrite !sumz_same; eauto; rewrite Hgh; auto.
+  - erewrite sumz_same; eauto. rewrite Hgh. auto.
+Qed.
+
+(* ---- Acquire ---------------------------------------------------------------------------------------------------- *)
+Lemma sat_acquire : forall g t th a l o, sat g t th a ->
+  sat (set_lock (phys l g th) o g) t (th_held ((l, phys l g th) :: held th) th) (with_locks (l :: a_locks a) a).
+Proof.
+  intros g t th a l o Hs. destruct Hs. constructor; simpl; auto.
+  - rewrite s_locks0. reflexivity.
+  - intros l0 k [E | Hin].
+    + inv E. destruct l0; simpl; rewrite ?s_study0; eauto.
+    + apply s_phys0; auto.
+  - intros Hf. bool_hyps. destruct (s_regmiss0 H). auto.
+  - intros Hf. bool_hyps. destruct (s_idfresh0 H). auto.
+  - intros Hf. bool_hyps. destruct (s_room0 H). auto.
+  - intros Hf. bool_hyps. destruct (s_curpend0 H). auto.
+Qed.
+
+Lemma sat_release : forall g t th a l k h o, sat g t th a -> held th = (l, k) :: h ->
+  sat (set_lock k o g) t (th_held h th) (with_locks (tl (a_locks a)) a).
+Proof.
+  intros g t th a l k h o Hs Hh. destruct Hs. rewrite Hh in *. simpl in s_locks0.
+  assert (Htl : tl (a_locks a) = map fst h) by (rewrite <- s_locks0; reflexivity).
+  constructor; simpl; auto.
+  - intros l0 k0 Hin. apply s_phys0. simpl. auto.
+  - intros Hf. bool_hyps. destruct (s_regmiss0 H). auto.
+  - intros Hf. bool_hyps. destruct (s_idfresh0 H). auto.
+  - intros Hf. bool_hyps. destruct (s_room0 H). auto.
+  - intros Hf. bool_hyps. destruct (s_curpend0 H). auto.
+Qed.
+
+
+(* ---- Branch ------------------------------------------------------------------------------------------------------- *)
+Definition branch_goal (cn : cond) (a : astate) (g : gstate) (ts : list tstate) (t : nat) (th : tstate) : Prop :=
+  let b := evalc c cn g th in
+  (static_cond (r_ret th) a cn = Some (negb b) -> False) /\
+  sat (note_full cn b g th) t (note_branch cn b th) (post_br cn b a) /\
+  (forall th'', same_regs (note_branch cn b th) th'' -> GI (note_full cn b g th) (set_th ts t th'')) /\
+  others_stable g (note_full cn b g th) ts t.
+
+Lemma branch_plain : forall cn a g ts t th,
+  GI g ts -> nth_error ts t = Some th -> sat g t th a ->
+  (forall b, note_full cn b g th = g) -> (forall b, note_branch cn b th = th) -> (forall b, post_br cn b a = a) ->
+  (static_cond (r_ret th) a cn = Some (negb (evalc c cn g th)) -> False) ->
+  branch_goal cn a g ts t th.
+Proof.
+  intros cn a g ts t th HG Ht Hs H1 H2 H3 H4. unfold branch_goal. rewrite H1, H2, H3.
+  split; auto. split; auto. split.
+  - intros. eapply GI_frame; eauto. apply same_gi_refl. apply (sr_gh _ _ H). intros. eapply same_regs_holds; eauto.
+  - red; intros; auto.
+Qed.
+
+Lemma GI_branch_ghost : forall g ts t th th'', GI g ts -> nth_error ts t = Some th ->
+  g_reg (gh th'') = g_reg (gh th) -> g_own (gh th'') = g_own (gh th) -> g_fb (gh th'') = g_fb (gh th) -> g_cc (gh th'') = g_cc (gh th) ->
+  g_ip (gh th'') = g_ip (gh th) -> g_dp (gh th'') = g_dp (gh th) -> g_infd (gh th'') = g_infd (gh th) -> held th'' = held th ->
+  GI g (set_th ts t th'').
+Proof.
+  intros g ts t th th'' [] Ht E1 E2 E3 E4 E5 E6 E7 E8.
+  constructor; auto.
+  - rewrite gi_nst0. f_equal. symmetry. eapply cntb_same; eauto.
+  - intros t0 th0 Hn Hr. destruct (Nat.eq_dec t t0).
+    + subst. erewrite nth_error_set_th_eq in Hn; eauto. inv Hn. unfold holds_k. rewrite E8. eapply gi_reglock0; eauto; congruence.
+    + rewrite nth_error_set_th_neq in Hn; auto. eauto.
+  - intros t0 th0 j Hn Ho. destruct (Nat.eq_dec t t0).
+    + subst. erewrite nth_error_set_th_eq in Hn; eauto. inv Hn. eapply gi_own0; eauto; congruence.
+    + rewrite nth_error_set_th_neq in Hn; auto. eauto.
+  - intros. assert (E : fbdebt (set_th ts t th'') i = fbdebt ts i).
+    { unfold fbdebt. eapply cntb_same; eauto. simpl. rewrite E2, E3. auto. }
+    rewrite E. auto.
+  - erewrite sumz_same; eauto.
+  - erewrite !sumz_same; eauto.
+  - erewrite sumz_same; eauto.
+Qed.
+
+Lemma evalc_cur : forall g th i x cn, r_study th = 0 -> r_cur th = Some i -> nth_error (T g) i = Some x ->
+  (cn = CInfeasible -> evalc c cn g th = t_inf x) /\ (cn = CCurPending -> evalc c cn g th = negb (t_done x)) /\
+  (cn = CCurNotPending -> evalc c cn g th = t_done x).
+Proof.
+  intros. unfold evalc, study_of, otrial, pending_t. rewrite H, H0. fold (T g). rewrite H1.
+  repeat split; intros; subst; auto. destruct (t_done x); reflexivity.
+Qed.
+
+Lemma branch_sound : forall cn rd off a g ts t th,
+  LockInv g ts -> GI g ts -> nth_error ts t = Some th -> sat g t th a -> req (Branch rd cn off) a = true ->
+  branch_goal cn a g ts t th.
+Proof.
+  intros cn rd off a g ts t th HL HG Ht Hs Hreq. pose proof (s_study _ _ _ _ Hs) as Hst0.
+  destruct cn; try (apply branch_plain; auto; simpl; intros; try discriminate; fail).
+  - (* CConst *) apply branch_plain; auto. simpl. destruct b; discriminate.
+  - (* CRegMissing *)
+    unfold branch_goal. simpl. split; [discriminate|]. split; [|split].
+    + destruct (registry g) eqn:E; destruct Hs; constructor; simpl; auto; try discriminate.
+    + intros. eapply GI_frame; eauto. apply same_gi_refl. apply (sr_gh _ _ H). intros. eapply same_regs_holds; eauto.
+    + red; auto.
+  - (* CTrialPending *)
+    unfold branch_goal. simpl. split; [discriminate|]. split; [|split].
+    + destruct (match otrial (study_of g (r_study th)) (r_trial th) with Some x => pending_t x | None => false end); destruct Hs; constructor; simpl; auto.
+    + intros. eapply GI_frame; eauto. apply same_gi_refl. apply (sr_gh _ _ H). intros. eapply same_regs_holds; eauto.
+    + red; auto.
+  - (* CFull *)
+    unfold branch_goal. simpl. rewrite Hst0. unfold study_of.
+    split; [discriminate|].
+    destruct (s_max (studies g 0)) as [m|] eqn:Em.
+    + destruct (Nat.ltb m (S (length (s_trials (studies g 0))))) eqn:El.
+      * (* full *) split; [|split].
+        -- eapply sat_frame; [| apply same_regs_refl | exact Hs]. constructor; reflexivity.
+        -- intros th'' Hsr. destruct HG. apply Nat.ltb_lt in El.
+           assert (Hgh : gh th'' = gh th) by apply (sr_gh _ _ Hsr).
+           constructor; simpl; auto.
+           ++ rewrite gi_nst0. f_equal. symmetry. eapply cntb_same; eauto. rewrite Hgh. auto.
+           ++ intros t0 th0 Hn Hr. destruct (Nat.eq_dec t t0).
+              ** subst. erewrite nth_error_set_th_eq in Hn; eauto. inv Hn. eapply same_regs_holds; eauto. eapply gi_reglock0; eauto. congruence.
+              ** rewrite nth_error_set_th_neq in Hn; auto. eauto.
+           ++ intros _. exists m. split; auto. destruct gi_max0 as [_ M]. specialize (M _ Em). unfold T in *. simpl. lia.
+           ++ intros t0 th0 j Hn Ho. destruct (Nat.eq_dec t t0).
+              ** subst. erewrite nth_error_set_th_eq in Hn; eauto. inv Hn. eapply gi_own0; eauto. congruence.
+              ** rewrite nth_error_set_th_neq in Hn; auto. eauto.
+           ++ intros. erewrite fbdebt_same; eauto.
+           ++ erewrite sumz_same; eauto. rewrite Hgh. auto.
+           ++ erewrite !sumz_same; eauto; rewrite Hgh; auto.
+           ++ erewrite sumz_same; eauto. rewrite Hgh. auto.
+        -- apply others_same_study. constructor; reflexivity.
+      * (* room *) apply Nat.ltb_ge in El. split; [|split].
+        -- destruct Hs. constructor; simpl; auto. intros Hf. split; auto. unfold St, T in *. rewrite Em. lia.
+        -- intros. eapply GI_frame; eauto. apply same_gi_refl. apply (sr_gh _ _ H). intros. eapply same_regs_holds; eauto.
+        -- red; auto.
+    + split; [|split].
+      * destruct Hs. constructor; simpl; auto. intros Hf. split; auto. unfold St in *. rewrite Em. auto.
+      * intros. eapply GI_frame; eauto. apply same_gi_refl. apply (sr_gh _ _ H). intros. eapply same_regs_holds; eauto.
+      * red; auto.
+  - (* CCurPending *)
+    unfold branch_goal. simpl note_full. simpl note_branch. split; [simpl; discriminate|]. split; [|split].
+    + unfold evalc. rewrite Hst0. unfold study_of, otrial, pending_t. fold (T g).
+      destruct (r_cur th) as [i|] eqn:Ec; [destruct (nth_error (T g) i) as [x|] eqn:Ex; [destruct (t_done x) eqn:Ed|]|];
+        simpl; destruct Hs; constructor; simpl; auto.
+      intros Hf. split; auto. exists i, x. auto.
+    + intros. eapply GI_frame; eauto. apply same_gi_refl. apply (sr_gh _ _ H). intros. eapply same_regs_holds; eauto.
+    + red; auto.
+  - (* CCurNotPending *)
+    unfold branch_goal. simpl note_full. simpl note_branch. split; [simpl; discriminate|]. split; [|split].
+    + unfold evalc. rewrite Hst0. unfold study_of, otrial, pending_t. fold (T g).
+      destruct (r_cur th) as [i|] eqn:Ec; [destruct (nth_error (T g) i) as [x|] eqn:Ex; [destruct (t_done x) eqn:Ed|]|];
+        simpl; destruct Hs; constructor; simpl; auto.
+      intros Hf. split; auto. exists i, x. auto.
+    + intros. eapply GI_frame; eauto. apply same_gi_refl. apply (sr_gh _ _ H). intros. eapply same_regs_holds; eauto.
+    + red; auto.
+  - (* CNoMeas *)
+    unfold branch_goal. simpl note_full. simpl note_branch. split; [simpl; discriminate|]. split; [|split].
+    + unfold evalc. rewrite Hst0. unfold study_of, otrial. fold (T g).
+      destruct (r_cur th) as [i|] eqn:Ec; [destruct (nth_error (T g) i) as [x|] eqn:Ex; [destruct (t_meas x) eqn:Ed|]|];
+        simpl; destruct Hs; constructor; simpl; auto.
+      intros _. exists i, x. rewrite Ed. repeat split; auto. discriminate.
+    + intros. eapply GI_frame; eauto. apply same_gi_refl. apply (sr_gh _ _ H). intros. eapply same_regs_holds; eauto.
+    + red; auto.
+  - (* CRetTrue *) apply branch_plain; auto. simpl. intros E. inv E. destruct (r_ret th); discriminate.
+  - (* CRetFalse *) apply branch_plain; auto. simpl. intros E. inv E. destruct (r_ret th); discriminate.
+  - (* CInfeasible *)
+    apply branch_plain; auto. simpl static_cond. destruct (f_own a) eqn:Eo; try discriminate. intros E.
+    destruct (s_kinf _ _ _ _ Hs _ E) as [i [x [A [B [C [D [F G]]]]]]].
+    destruct (evalc_cur g th i x CInfeasible Hst0 A C) as [K _]. rewrite K in G; auto. destruct (t_inf x); discriminate.
+  - (* CBestBetter *)
+    unfold branch_goal. simpl note_full. split; [simpl; discriminate|].
+    destruct (evalc c CBestBetter g th) eqn:Eb; simpl note_branch; simpl post_br.
+    + split; [|split].
+      * destruct Hs. constructor; simpl; auto.
+      * intros. eapply GI_frame; eauto. apply same_gi_refl. apply (sr_gh _ _ H). intros. eapply same_regs_holds; eauto.
+      * red; auto.
+    + split; [|split].
+      * destruct Hs. constructor; simpl; auto.
+      * intros th'' Hsr. eapply GI_branch_ghost; eauto; rewrite (sr_gh _ _ Hsr) || rewrite (sr_held _ _ Hsr); reflexivity.
+      * red; auto.
+  - (* CRewardSome *)
+    apply branch_plain; auto. simpl static_cond. destruct (f_reward a) eqn:Er; try discriminate. intros E. inv E.
+    pose proof (s_reward _ _ _ _ Hs Er). simpl in H0. destruct (r_reward th); try congruence. discriminate.
+Qed.
+
 End Sound.
